@@ -21,6 +21,7 @@ For invalid UTF-8 bodies (the chain fails and passes through) only the weak rela
 -/
 import RioModel.Props.C03tok
 import RioModel.Proofs.FilterStrong
+import RioModel.Proofs.FilterCount
 set_option linter.unusedSimpArgs false
 set_option linter.unusedVariables false
 
@@ -65,7 +66,8 @@ def StageSpec (tk : Tokenize) : Stage Unit Unit → Bytes → Bytes → Prop
     match s.visitor.kind with
     | .replace => ∃ tgt o', (pathOf s.visitor).getLast? = some tgt ∧
         RScript tgt s.visitor.content (view tk [] a).all o' ∧ b = o' ++ (view tk [] a).rem
-    | _ => Edit [s.visitor.content] [] a b
+    | _ => Edit [s.visitor.content] [] a b ∧
+        b.length ≤ a.length + s.visitor.content.length * ((view tk [] a).all.filter (onPath (pathOf s.visitor))).length
   | _, a, b => a = b
 
 /-- the chain: stage k works on the output of stage k-1; every intermediate stream is complete valid UTF-8 -/
@@ -86,6 +88,35 @@ def StageFresh : Stage Unit Unit → Prop
 section
 variable {tk : Tokenize} (hl : LosslessAll tk) (hv : TokValidAll tk) (hr : RestartLaw tk) (ev : Bytes → Bytes → Bool)
 include hl hv hr
+
+omit hv hr in
+/-- the length bound of an insert stage: at most one copy of the value per tag token of the input named on the path -/
+theorem stage_one_len (v : Visitor) (hb : v.before = []) (a b : Bytes) (ha : V a)
+    (h : stOne tk ev (.html (HtmlSt.new v) : Stage Unit Unit) a = some b) :
+    b.length ≤ a.length + v.content.length * ((view tk [] a).all.filter (onPath (pathOf v))).length := by
+  have hsp : utf8Split ((HtmlSt.new v).last ++ a) = some (a, []) := by
+    simpa [HtmlSt.new] using utf8Split_of_V ha
+  simp only [stOne] at h
+  rw [total_formula tk ev (HtmlSt.new v) a a [] hsp] at h
+  injection h with h
+  have hP : PInv (pathOf v) (HtmlSt.new v) := by
+    refine ⟨rfl, ?_, ?_⟩
+    · intro x hx
+      simp only [HtmlSt.new, Visitor.first, hb, List.reverse_nil] at hx
+      injection hx with hx
+      subst hx
+      exact cur_mem_path v
+    · intro x hx; simp [HtmlSt.new] at hx
+  have hlen := fold_len hl.plain ev (view tk [] a).all (HtmlSt.new v) [] hP
+  have hrem := congrArg List.length (view_all_rem tk hl.stream [] a)
+  have hc : (HtmlSt.new v).ctx = [] := rfl
+  rw [hc] at h
+  rw [← h]
+  simp only [List.length_append, List.length_nil] at hrem ⊢
+  have h0 : (ledger (HtmlSt.new v) []).length = 0 := by simp [ledger, HtmlSt.new]
+  have hcv : (HtmlSt.new v).visitor.content = v.content := rfl
+  rw [h0, hcv] at hlen
+  omega
 
 omit hv hr in
 /-- **One fresh stage on a whole valid stream meets its specification.** -/
@@ -122,7 +153,8 @@ theorem stage_one_spec (st : Stage Unit Unit) (hf : StageFresh st) (a b : Bytes)
         injection h with h
         obtain ⟨_, _, e⟩ := filterHtml_spec hl ev (HtmlSt.new v) s' a o
           (fun hk' => by simp [HtmlSt.new, hk] at hk') (fun hk' => by simp [HtmlSt.new, hk] at hk') hfh
-        simpa [visIns, visRep, HtmlSt.new, hk, endHtml_eq, flat, ← h] using e
+        refine ⟨by simpa [visIns, visRep, HtmlSt.new, hk, endHtml_eq, flat, ← h] using e, ?_⟩
+        exact stage_one_len hl ev v hb a b ha (by simp only [stOne]; unfold htmlTotal; rw [hfh]; simp [h])
     | prepend =>
       simp only [StageSpec, HtmlSt.new, hk]
       unfold htmlTotal at h
@@ -134,7 +166,8 @@ theorem stage_one_spec (st : Stage Unit Unit) (hf : StageFresh st) (a b : Bytes)
         injection h with h
         obtain ⟨_, _, e⟩ := filterHtml_spec hl ev (HtmlSt.new v) s' a o
           (fun hk' => by simp [HtmlSt.new, hk] at hk') (fun hk' => by simp [HtmlSt.new, hk] at hk') hfh
-        simpa [visIns, visRep, HtmlSt.new, hk, endHtml_eq, flat, ← h] using e
+        refine ⟨by simpa [visIns, visRep, HtmlSt.new, hk, endHtml_eq, flat, ← h] using e, ?_⟩
+        exact stage_one_len hl ev v hb a b ha (by simp only [stOne]; unfold htmlTotal; rw [hfh]; simp [h])
   | decode d => simp [stOne] at h
   | encode e => simp [stOne] at h
 
@@ -263,6 +296,87 @@ theorem run_closed_form {tk : Tokenize} (hl : LosslessAll tk) (hv : TokValidAll 
     (fun st hst => by obtain ⟨f, hf, hn⟩ := hmem st hst; exact Rio.C03.stage_new_init tk hnil f ct st hn) hvb
   rw [run_of_runG tk ev noCodec [cs.flatten] _ out r1]
   exact r3
+
+/-! ### readable corollaries: one html filter -/
+
+/-- the number of copies an insert stage adds: at most one per tag token of its input named on the filter's path -/
+theorem insert_count {c a b : Bytes} {N : Nat} (hc : c ≠ []) (h : Edit [c] [] a b)
+    (hlen : b.length ≤ a.length + c.length * N) : ∃ k, k ≤ N ∧ InsN c k a b :=
+  count_of_len hc h hlen
+
+theorem chain_of_one_html (lower : String → String) (headers : List (String × String)) (action : String)
+    (p : Bytes) (ps : List Bytes) (sel : Option Bytes) (value : Bytes) (k : VKind)
+    (henc : headerValue lower Rio.Consts.filterHeaderContentEncoding headers = none)
+    (hct : htmlAllowed (headerValue lower Rio.Consts.filterHeaderContentType headers) = true)
+    (hk : Visitor.new action (p :: ps) sel value = some { kind := k, cur := p, after := ps, sel := sel, content := value }) :
+    (Chain.new noCodec lower [.html action (p :: ps) sel value] headers).items =
+      [(.html (HtmlSt.new { kind := k, cur := p, after := ps, sel := sel, content := value }) : Stage Unit Unit)] := by
+  rw [new_plain noCodec lower _ headers henc]
+  simp [Stage.new, hct, hk]
+
+/-- **One `replace` filter, on the tokenizer model.**  For every valid UTF-8 body and every schedule of chunks, with
+`T ++ rem` the tokenization of the body (`T` = its tokens, `rem` = an unfinished tail): the output is `o' ++ rem` where `o'`
+renders `T` left to right, replacing some NON-OVERLAPPING ELEMENT SPANS of the target `tgt` = last element of the path (a
+`<tgt …>` start tag, the tokens up to the first end / self-closing tag named `tgt`; or a single void / self-closing `tgt`
+tag) by the value and keeping every other token in place.  Nothing else: no other byte of the body is removed, nothing
+is inserted. -/
+theorem replace_one_final (ev : Bytes → Bytes → Bool) (lower : String → String) (headers : List (String × String))
+    (p : Bytes) (ps : List Bytes) (sel : Option Bytes) (value : Bytes)
+    (henc : headerValue lower Rio.Consts.filterHeaderContentEncoding headers = none)
+    (hct : htmlAllowed (headerValue lower Rio.Consts.filterHeaderContentType headers) = true)
+    (hval : V value) (cs : List Bytes) (hbody : Rio.C03.ValidBody cs.flatten) :
+    ∃ tgt o', (p :: ps).getLast? = some tgt ∧
+      RScript tgt value (view htmlTokenize [] cs.flatten).all o' ∧
+      (Chain.new noCodec lower [.html Rio.Consts.filterActionReplace (p :: ps) sel value] headers).run htmlTokenize ev noCodec cs =
+        o' ++ (view htmlTokenize [] cs.flatten).rem := by
+  have h := conservative_strong_final ev lower [.html Rio.Consts.filterActionReplace (p :: ps) sel value] headers henc
+    (by intro f hf; simp at hf; subst hf; exact hval) cs hbody
+  rw [chain_of_one_html lower headers _ p ps sel value .replace henc hct (by simp [Visitor.new, Rio.Consts.filterActionReplace, Rio.Consts.filterActionAppend, Rio.Consts.filterActionPrepend])] at h
+  obtain ⟨b, h1, _, h3⟩ := h
+  simp only [PipeSpec] at h3
+  subst h3
+  simp only [StageSpec, HtmlSt.new] at h1
+  obtain ⟨tgt, o', e1, e2, e3⟩ := h1
+  exact ⟨tgt, o', by simpa [pathOf] using e1, e2, e3⟩
+
+/-- **One `append_child` / `prepend_child` filter, on the tokenizer model.**  The output is the body with `k` whole copies
+of the value inserted (`InsN`: nothing lost, duplicated or reordered), and `k` is at most the number of tag tokens of the
+body whose name is on the filter's path. -/
+theorem insert_one_final (ev : Bytes → Bytes → Bool) (lower : String → String) (headers : List (String × String))
+    (action : String) (hact : action = Rio.Consts.filterActionAppend ∨ action = Rio.Consts.filterActionPrepend)
+    (p : Bytes) (ps : List Bytes) (sel : Option Bytes) (value : Bytes) (hne : value ≠ [])
+    (henc : headerValue lower Rio.Consts.filterHeaderContentEncoding headers = none)
+    (hct : htmlAllowed (headerValue lower Rio.Consts.filterHeaderContentType headers) = true)
+    (hval : V value) (cs : List Bytes) (hbody : Rio.C03.ValidBody cs.flatten) :
+    ∃ k, k ≤ ((view htmlTokenize [] cs.flatten).all.filter (onPath (p :: ps))).length ∧
+      InsN value k cs.flatten
+        ((Chain.new noCodec lower [.html action (p :: ps) sel value] headers).run htmlTokenize ev noCodec cs) := by
+  have h := conservative_strong_final ev lower [.html action (p :: ps) sel value] headers henc
+    (by intro f hf; simp at hf; subst hf; exact hval) cs hbody
+  rcases hact with rfl | rfl
+  · rw [chain_of_one_html lower headers _ p ps sel value .append henc hct (by simp [Visitor.new, Rio.Consts.filterActionReplace, Rio.Consts.filterActionAppend, Rio.Consts.filterActionPrepend])] at h
+    obtain ⟨b, h1, _, h3⟩ := h
+    simp only [PipeSpec] at h3
+    subst h3
+    simp only [StageSpec, HtmlSt.new] at h1
+    exact insert_count hne h1.1 (by simpa [pathOf] using h1.2)
+  · rw [chain_of_one_html lower headers _ p ps sel value .prepend henc hct (by simp [Visitor.new, Rio.Consts.filterActionReplace, Rio.Consts.filterActionAppend, Rio.Consts.filterActionPrepend])] at h
+    obtain ⟨b, h1, _, h3⟩ := h
+    simp only [PipeSpec] at h3
+    subst h3
+    simp only [StageSpec, HtmlSt.new] at h1
+    exact insert_count hne h1.1 (by simpa [pathOf] using h1.2)
+
+/-- non-vacuity: `<div><p>a</p>x<br><p>b</p></div>` with `replace` on path `div, p` and value `<i>R</i>`: both `p` elements
+are element spans and are replaced, every other token is kept (kernel-evaluated on the tokenizer model) -/
+theorem replace_example :
+    (Chain.new noCodec id [.html "replace" [[100, 105, 118], [112]] none [60, 105, 62, 82, 60, 47, 105, 62]] []).run
+        htmlTokenize evalStandIn noCodec
+        [[60, 100, 105, 118, 62, 60, 112, 62, 97, 60, 47, 112, 62, 120, 60, 98, 114, 62] ++
+          [60, 112, 62, 98, 60, 47, 112, 62, 60, 47, 100, 105, 118, 62]] =
+      [60, 100, 105, 118, 62] ++ [60, 105, 62, 82, 60, 47, 105, 62] ++ [120, 60, 98, 114, 62] ++
+        [60, 105, 62, 82, 60, 47, 105, 62] ++ [60, 47, 100, 105, 118, 62] := by
+  decide +kernel
 
 /-! ### clause "no element path of F starts in b ⇒ the output is b" -/
 
